@@ -135,6 +135,8 @@ func (m *baseMocker) applyByIFaceMethod(ctx *iface.IContext, iFace interface{}, 
 	m.guard = newIFaceMockGuard(ctx)
 	m.guard.Apply()
 	m.imp = callback
+	// 重新应用之后 mocker 不再处于取消状态
+	m.canceled = false
 }
 
 // whens 指定的返回值
